@@ -145,7 +145,7 @@ L['C12'] = dict(modules=['Schc.Properties.C12'], level='proof', technique='Lean 
 
 L['C13'] = dict(modules=['Schc.Properties.C13'], level='proof', technique='Lean 4 refinement of the byte-level Buffer model (constructor, shift loops, re-padding) to bit lists',
     theorems=[T('C13_canonical', 'full', 'every Buffer the constructor returns is the canonical Buffer of its bits, for ANY content'),
-              T('C13_eq_iff', 'full', '== is bit equality for all four padding-side combinations; operand untouched'),
+              T('C13_eq_iff', 'full', '== is bit equality for all four padding-side combinations (operand preservation: C16_pure_eq)'),
               T('C13_hash', 'full', 'equal Buffers hash alike (the hashed key is a function of the bits alone)'),
               T('C13_dict', 'full', 'dict lookup through any equal key'), T('C13_mapping_lookup', 'full', 'match-mapping lookups succeed across padding sides')],
     level_text='Proved for all bit strings of any length on both sides: the byte-level model of __eq__ (length test, re-pad copy through the carry loops of _shift_left/_shift_right, content compare) and of __hash__ is bit equality / a function of the bits. Python dicts are modelled as association lists looked up by hash-then-eq; 64-bit hash collisions between different contents are abstracted away (DESIGN.md §7).')
@@ -168,8 +168,8 @@ L['C06'] = dict(modules=['Schc.Properties.C06'], level='proof', technique='Lean 
     theorems=[T('C06_shift', 'full', 'shift(s, inplace) for every integer s, both sides, both modes'),
               T('C06_shift_left_bits', 'full', 'left shift appends zeros'), T('C06_shift_right_bits', 'full', 'right shift drops the last bits'),
               T('C06_shift_right_all', 'full', 's >= length leaves the empty Buffer'),
-              T('C06_and', 'full', '& over equal lengths, ValueError otherwise; right operand unchanged'), T('C06_or', 'full', '|'), T('C06_xor', 'full', '^'),
-              T('C06_invert', 'full', '~'), T('C06_value', 'full', 'value() is the big-endian integer; operand unchanged'),
+              T('C06_and', 'full', '& over equal lengths, ValueError otherwise (operand preservation: C16_pure_and)'), T('C06_or', 'full', '|'), T('C06_xor', 'full', '^'),
+              T('C06_invert', 'full', '~'), T('C06_value', 'full', 'value() is the big-endian integer (operand preservation: C16_pure_value)'),
               T('C06_chunks', 'full', 'chunks(n, padding) for every n >= 1'), T('C06_chunks_pieces', 'full', 'closed form of the pieces'),
               T('C06_chunks_zero', 'full', 'chunks(0) raises')],
     level_text='Proved for bit strings of every length, both sides, every shift amount (any integer) and every chunk size. Tie as for C05. Python ints are unbounded Nat in the model (exact).')
